@@ -45,6 +45,24 @@ def view_hook(builder, fr, out, node, stmt, sites):
                     b0 = astx.strip_casts(s0["l"])
                     if b0.get("k") == "call" and astx.callee(b0)[0] == "data" and astx.is_this(astx.callee(b0)[2]):
                         off, n, what = s0["r"], node["a"][2], "range read by traits::" + nm
+    if node.get("k") == "bin" and node["op"] == "+":
+        # pointer formation: data() + e / _begin + e / begin() + e must not go beyond one past the last character
+        b0 = astx.strip_casts(node["l"])
+        isbase = False
+        if b0 is not None and b0.get("k") == "call" and astx.callee(b0)[0] in ("data", "begin", "cbegin") and astx.is_this(astx.callee(b0)[2]):
+            isbase = True
+        if b0 is not None and b0.get("k") == "mem" and astx.is_this(b0.get("b")) and b0.get("dk") == "field" and b0["n"] == "_begin":
+            isbase = True
+        if not isbase:
+            return
+        ot = P.simplify(builder.term(node["r"], fr))
+        t = ("cmp", "<=", ot, T.size_of("this", fr.ctx))
+        info = builder.info(fr, stmt, what="pointer formed at %s + %s" % (astx.show(b0, 20), astx.show(node["r"], 30)), buffer="view",
+                            access="form", index=T.show(ot), bound="size() (one past the end)")
+        info["site_id"] = "%s:%s" % (" > ".join(info.get("callpath") or [info["func"]]), info["what"])
+        sites.append(B.Site(info, t))
+        out.append(("oblige", t, dict(info, site=len(sites) - 1)))
+        return
     if off is None:
         return
     ot, nt = P.simplify(builder.term(off, fr)), P.simplify(builder.term(n, fr))
